@@ -386,6 +386,31 @@ def State.annotate (s : State) (id : Option String) (t : TargetReq) (ds : List D
         let h := s2.anns.length
         (.ok (toString h), { s2 with anns := s2.anns ++ [some a], edges := addEdges s2.edges a.fwd h })
 
+/-! ### batches -/
+
+/-- one element of a batch -/
+structure Item where
+  id : Option String
+  target : TargetReq
+  data : List DataReq
+
+/-- `annotate_from_iter`: the handles of the annotations added, or the refusal, and the store afterwards -/
+def annotateAll (s : State) : List Item → Option (List String) × State
+  | [] => (some [], s)
+  | it :: r =>
+    match s.annotate it.id it.target it.data with
+    | (.ok h, s1) =>
+      match annotateAll s1 r with
+      | (some hs, s2) => (some (h :: hs), s2)
+      | (none, s2) => (none, s2)
+    | (.err, s1) => (none, s1)
+
+/-- the elements annotated one after another, whatever each answers -/
+def annotateSeq (s : State) : List Item → State
+  | [] => s
+  | it :: r => annotateSeq (s.annotate it.id it.target it.data).2 r
+
+
 /-- `StoreFor<Annotation>::remove` with its `preremove` callback: first (recursively) the
 annotations that point at this one, then un-index, then tombstone. `fuel` bounds the recursion. -/
 def State.removeAnn (fuel : Nat) (s : State) (h : Nat) : Option State :=
